@@ -133,7 +133,44 @@ def gen_fg():
     return {"GenFG.v": txt}
 
 
-GENERATORS = [gen_symbols, gen_rules, gen_const, gen_fg]
+def mgraph(m):
+    """a molecule as Model/Merge.mgraph: atom symbols and (begin, end, bond type) triples"""
+    return "{| matoms := %s; mbonds := %s |}" % (
+        clist([a.GetSymbol() for a in m.GetAtoms()], cstr),
+        clist([(b.GetBeginAtomIdx(), b.GetEndAtomIdx(), int(b.GetBondType())) for b in m.GetBonds()],
+              lambda t: "(%s, %s, %s)" % (cnat(t[0]), cnat(t[1]), cnat(t[2]))))
+
+
+def gen_merge():
+    from rdkit import Chem
+    from synrbl.SynMCSImputer.rules import MergeRule, ExpandRule, CompoundRule, parse_bond_type
+    mr, er, cr = MergeRule.get_all(), ExpandRule.get_all(), CompoundRule.get_all()
+    if not (isinstance(mr, list) and isinstance(er, list) and mr and er):
+        raise GenError("merge / expand rules: unexpected shape")
+    txt = HEADER % "synrbl/SynMCSImputer/merge_rules.json, expand_rules.json, compound_rules.json (as loaded by MergeRule/ExpandRule/CompoundRule.get_all)"
+    txt += "From SynRBL Require Import Model.Merge.\n\n"
+    ms = []
+    for r in mr:
+        bt, nr = parse_bond_type(r.bond)
+        if not isinstance(r.name, str):
+            raise GenError("merge rule without a name")
+        ms.append("{| mname := %s; mbond := %s |}" % (cstr(r.name), copt(None if bt is None else int(bt), cnat)))
+    es = []
+    for r in er:
+        c = r.compound
+        if not (isinstance(c, dict) and isinstance(c.get("smiles"), str) and isinstance(c.get("index"), int)):
+            raise GenError("expand rule %r: compound of unexpected shape" % (r.name,))
+        m = Chem.MolFromSmiles(c["smiles"])
+        if m is None:
+            raise GenError("expand rule %r: compound SMILES does not parse" % (r.name,))
+        es.append("{| ename := %s; ecompound := %s; eindex := %s |}" % (cstr(r.name), mgraph(m), cnat(c["index"])))
+    txt += "Definition merge_rules : list mrule :=\n  [ %s ].\n" % ";\n    ".join(ms)
+    txt += "Definition expand_rules : list erule :=\n  [ %s ].\n" % ";\n    ".join(es)
+    txt += "Definition compound_rule_names : list string := %s.\n" % clist([r.name for r in cr], cstr)
+    return {"GenMerge.v": txt}
+
+
+GENERATORS = [gen_symbols, gen_rules, gen_const, gen_fg, gen_merge]
 
 
 def generate():
